@@ -1,6 +1,7 @@
 """E6: obligations, floors, evidence JSON, replay files, known-finding matching, exit codes."""
 from __future__ import annotations
 import ast
+import contextlib
 import hashlib
 import json
 import os
@@ -68,8 +69,22 @@ class Ctx:
         if text not in self.assumptions:
             self.assumptions.append(text)
 
+    @contextlib.contextmanager
+    def only(self, *where_parts: str):
+        """Run a clause borrowed from another property but keep only its obligations located in constructs that matter for this property
+        (`where` must contain one of the given parts); the rest of the borrowed clause is not this property's business."""
+        old = getattr(self, "_only", None)
+        self._only = tuple(where_parts)
+        try:
+            yield self
+        finally:
+            self._only = old
+
     def ob(self, where: str, what: str, ok: bool, detail: str = "", key: Optional[str] = None, rule: Optional[str] = None):
         """Record one obligation. ok=False is a positively established violation."""
+        flt = getattr(self, "_only", None)
+        if flt and not any(p in where or p in what for p in flt):
+            return ok
         rule = rule or self.current_rule
         rec = {"rule": rule, "where": where, "what": what, "verdict": "holds" if ok else "VIOLATED"}
         if detail:
